@@ -4,7 +4,7 @@ packet is decoded, following the control flow of `Model/Edf.dec` (decode.go / re
   * Decode / decodeAny / the map loops : reflect.New(dec.Type)            → Ty.size
   * slices                              : reflect.MakeSlice(t, n, n)       → n * size(elem)   (after the n ≤ len(packet) check)
   * unnamed maps                        : reflect.MakeMapWithSize(t, n)    → n * (size k + size v)   (after the check)
-  * registered maps                     : reflect.MakeMapWithSize(t, n) BEFORE the count check (register.go:606)
+  * registered maps                     : the same (the count check precedes MakeMapWithSize since fix fd28ef1)
   * strings, binaries, marshaler payloads: the copied bytes
 An array type from a descriptor is allocated whole by the reflect.New of its holder (D23).
 Core Lean only, no proofs.
@@ -93,10 +93,10 @@ def alloc (o : Opts) : Nat → Bool → Ty → Bytes → Nat
         else match rd32 r with
           | none => 0
           | some (n, r') =>
-            -- MakeMapWithSize(tov, n) runs before `n > len(packet)` is checked
-            n * (kt.size + vt.size) +
-              (if n = 0 ∨ n > r'.length then 0
-               else allocIterP kt.size vt.size (alloc o fuel false kt) (alloc o fuel false vt) (dec o fuel false kt) (dec o fuel false vt) n r')
+            -- after the fix fd28ef1 the count check precedes MakeMapWithSize (as in the unnamed map decoder)
+            if n = 0 ∨ n > r'.length then 0
+            else n * (kt.size + vt.size) +
+              allocIterP kt.size vt.size (alloc o fuel false kt) (alloc o fuel false vt) (dec o fuel false kt) (dec o fuel false vt) n r'
     | .named _ t' => allocLeaf t' bs
     | .struct _ fs => allocIterF (fun t b => alloc o fuel false t b) (fun t b => dec o fuel false t b) fs bs
     | .marsh _ _ => allocLeaf .bin bs
